@@ -1468,6 +1468,12 @@ func flatMapAutomaton(c *core.Ctx, fn *ssa.Function, an *ir.Analysis, isCtor boo
 							if !st.Pol {
 								s = fmS0
 							} // nil outer: stays in fmPre, must return nil
+						case isOuter(x) && s == fmSN && !isCtor:
+							// a latch: the outer iterator is dropped (set to nil) once it is exhausted, and finding it nil
+							// at entry means the iterator is dead
+							if st.Pol {
+								s = fmS4
+							}
 						case isCurVal(x) && s == fmSN && !isCtor:
 							// a guard on the dead state: after Next answered false the current inner sequence is nil (the
 							// documented protocol); finding it nil at entry means the iterator is exhausted already
